@@ -59,7 +59,12 @@ fn gen_bytes(s: &mut Choices, n: usize) -> Vec<u8> {
 fn gen_ctor(s: &mut Choices, kind: Kind) -> Ctor {
     match kind {
         Kind::Madt => Ctor::Madt(opt(s, |s| s.u32())),
-        Kind::Slit => Ctor::Slit(if s.chance(20) { s.below(41) } else { s.below(9) }),
+        // mostly small matrices; sometimes a count that needs a second byte (255..=258)
+        Kind::Slit => Ctor::Slit(match s.below(16) {
+            0 => 255 + s.below(4),
+            1 | 2 => s.below(41),
+            _ => s.below(9),
+        }),
         Kind::Rhct => Ctor::Rhct(s.u64()),
         Kind::Tpm2 => Ctor::Tpm2 { server: s.bool(), base: s.u64(), start: s.below(7) as u8 },
         Kind::TcpaClient => Ctor::TcpaClient { laml: s.u32(), lasa: s.u64() },
